@@ -19,13 +19,13 @@ CHECKS = {
    text="All K in 0..=56403 (ascending on 16 threads, and descending / zig-zag around every table row on one thread: the answer must not depend on earlier look-ups) and (thorough) all ~8*10^9 (K', X) pairs are pushed through the real tuple generator in both overflow-check settings and compared with an independent Rand/Deg/Tuple; the algebraically solved y+i wrap-around inputs come first and also go through repair_packets / decode.",
    note="Reference tables V0-V3, Table 2, degree table are transcribed from the pinned commit (no RFC copy on the image). Quick tier covers 16 of the 477 K' completely."),
  "C19": dict(level="exploration", design="5/C19", technique="complete grid T x Z x boundary-F x Al against a u128 acceptance predicate",
-   text="Every T (thorough: all 65535) x every Z x every F adjacent to a limit or to a 2^32 multiple of the symbol count x alignment classes is passed to the real constructor under catch_unwind; accept/refuse must equal the documented predicate evaluated in u128 and accepted values must be echoed.",
+   text="Every T (thorough: all 65535) x every Z x every F adjacent to a limit (incl. F = 0), to a 2^32 multiple of the symbol count or of the per-block ceiling's numerator, or to a 2^16 multiple of the per-block count x alignment classes is passed to the real constructor under catch_unwind; accept/refuse must equal the documented predicate evaluated in u128 and accepted values must be echoed.",
    note="F off the boundary sets is not enumerated; limits are those documented on the constructor (errata 5548 and 4.4.1.2)."),
  "C01": dict(level="exploration", design="5/C01", technique="exhaustive subset-lattice exploration of a real Decoder (clone per branch) over a configuration box (sets in two orders and multisets), plus deviation-bounded histories over wide/tall shapes and all 954 block sizes; ground-truth oracle",
    text="Every subset (in canonical order, in reverse order, and in reverse order with every packet delivered twice) of a per-object packet universe is delivered to a real Decoder for every configuration of a box built around the code's case distinctions (F mod T, Z with KL!=KS, N with TL!=TS, padded short blocks); every answer must be None or the object, Some once all source packets are in. Wide shapes (T up to 24/64, every Al and N, up to 10/14 symbols, 6/8 blocks) and tall objects (every symbol count 11..130/330 with 2..4/6 blocks, so block sizes straddle every table size K') are driven through bounded deviations (one erased source symbol per block, interleaved blocks, a duplicate, three repair packets, the late packet; repair-only). All 477 K' and their min-K partners are driven through erasure/repair histories.",
    note="One data pattern per configuration (other contents by linearity, C09); full subset enumeration only for Kt<=4."),
  "C02": dict(level="model_checking", design="5/C02", technique="state-graph exploration (DFS over clones of the real SourceBlockDecoder, one packet per transition) with an independent GF(256) rank oracle evaluated on every node; erasure-bounded",
-   text="The state graph of a real block decoder under all deliveries of subsets of a packet universe (bounded number of erased source symbols, every subset of H+4 near and 4 far repair symbols) is explored on clones; at every node the answer must equal [all source present or rank = L] computed by an independent incremental echelon basis over the RFC constraint matrix, and bytes must be the data. Counts of legitimate failures, fast-path entries and forced fall-backs prove non-vacuity. Also run in the debug-assertions build.",
+   text="The state graph of a real block decoder under all deliveries of subsets of a packet universe (bounded number of erased source symbols, every subset of H+4 near and 4 far repair symbols) is explored on clones; at every node the answer must equal [all source present or rank = L] computed by an independent incremental echelon basis over the RFC constraint matrix, and bytes must be the data; every node with at least K+3 symbols is additionally handed to a fresh decoder in one call (one attempt that sees all the overhead at once). Counts of legitimate failures, fast-path entries and forced fall-backs prove non-vacuity. Also run in the debug-assertions build.",
    note="Reference tables transcribed from the pinned commit. Canonical arrival order per node (order independence is C08). Large K only with fixed erasure patterns."),
  "C03": dict(level="exploration", design="5/C03 and section 7", technique="complete enumeration of all (K+h)-subsets, h in {0,1,2}, of fixed finite universes with exact failure counts and a rank oracle",
    text="Bounded version of a statistical claim: for fixed universes every subset of size K, K+1, K+2 (not containing all source symbols) is decoded by the real decoder; every (K+1)- and (K+2)-subset is also delivered in two calls (the outcome may depend on the set only); each failure must be a genuine rank deficiency, and the exact aggregate failure fractions must satisfy the property's thresholds (<1%, <0.01%, <0.001%) and be non-increasing.",
@@ -49,10 +49,10 @@ CHECKS = {
    text="Eleven loom harnesses (same size, overlapping sizes, insert races eviction, hit races eviction, double eviction, sizes on the far side of the 250-symbol back-end threshold, large+small at capacity; 2-4 threads; unbounded DPOR where feasible, preemption bound 2-4 otherwise) run the real SourceBlockEncoder::new against the real cache compiled with loom primitives; every execution checks transparency and the cache invariants. Request histories (nodes = histories replayed on a cleared cache, merged on equal real contents; alphabet relative to the contents plus large sizes; seed prefixes around the capacity incl. full caches of large, re-requested plans) are explored to a depth bound; every request runs under a time limit (a call that never returns is a violation) and no eviction policy is assumed. Every ordered pair of confusable block sizes (rows sharing the systematic index, neighbouring rows, sizes padded to the same K') is requested on an empty cache in child processes.",
    note="<= 4 threads; std Mutex internals trusted; loom failure replay = deterministic re-exploration of the named model.", engine="rqcheck+rqloom"),
  "C18": dict(level="exploration", design="5/C18", technique="complete enumeration of windows (s,n), whole repair streams and plan instances; differential oracle (window vs singles, plan vs plan)",
-   text="All windows with s+n<=24, long windows around every length at which a strategy could switch (L, K', K, 2L, 64, 256, 1000) and the windows at the 2^24 end for every K of the ladder, two complete 2^24-K streams under two tilings, six ways of obtaining an encoder per K, the per-object packet list over a configuration box, and every block of every object (box and tall objects with every symbol count 2..330/1300 in 2..5/7 blocks) against a stand-alone block encoder and an encoder with a freshly generated plan for the same bytes.",
+   text="All windows with s+n<=24, long windows around every length at which a strategy could switch (L, K', K, 2L, 64, 256, 1000) and the windows at the 2^24 end for every K of the ladder, two complete 2^24-K streams under two tilings, six ways of obtaining an encoder per K, the same requests repeated in other orders on the same encoder objects, the per-object packet list over a configuration box, and every block of every object (box and tall objects with every symbol count 2..330/1300 in 2..5/7 blocks) against a stand-alone block encoder and an encoder with a freshly generated plan for the same bytes.",
    note="Requests beyond ESI 2^24-1 are outside the property and not judged."),
  "C07": dict(level="exploration", design="5/C07", technique="complete enumeration of the configuration lattice (4 builds x kernel family x threshold x plan mode) with a differential digest oracle",
-   text="Every configuration that exists on this host (in the quick tier: {release, debug-assertions+overflow-checks} x {std, no_std} x {auto/AVX-512, AVX2, SSSE3, portable} forced through the dispatchers x sparse threshold {0,250,inf} x {cache cold/warm, explicit plan, unplanned}) runs the same workload; packets, decode outcomes and decoded bytes must be identical for every item, including a rank-deficient set and a set that forces the fast path to fall back.",
+   text="Every configuration that exists on this host (in the quick tier: {release, debug-assertions+overflow-checks} x {std, no_std} x {auto/AVX-512, AVX2, SSSE3, portable} forced through the dispatchers x sparse threshold {0,250,inf} x {cache cold/warm, explicit plan, unplanned}, plus the release/std workload on one thread in ascending and in descending item order) runs the same workload; packets, decode outcomes and decoded bytes must be identical for every item, including a rank-deficient set and a set that forces the fast path to fall back.",
    note="NEON, non-x86 targets and other compilers cannot run here. Workload: K ladder x 4 symbol sizes x 2 data patterns plus every K of a contiguous range (1..170 release / 1..110 debug-assertions; 700 / 330 thorough); the debug-assertions builds run the reduced set (cubic self-checks)."),
  "C09": dict(level="exploration", design="5/C09", technique="complete grid K x T (every residue of the kernel strides) x kernel family x plan mode with metamorphic linearity/column-independence relations, plus a sweep over every symbol size",
    text="For every symbol size 1..=160 (192 thorough) and boundary sizes, every kernel family and three ways of building the encoder: byte j of every packet equals the 1-byte packet of column j for every j; additivity for all data pairs; homogeneity for all 256 scalars; decode per T. T sweep: every T up to 2100 (thorough: every T up to 65535) and powers of two +-{0,1,2,100}, one encode per T with byte columns carrying fixed patterns, and with structured (zero / constant / periodic) symbols.",
